@@ -21,7 +21,7 @@ import (
 func init() {
 	Registry["C07"] = &Check{
 		Scenarios: c07Scenarios,
-		Rule: "schedules: W in {2,3} writer threads, 1-2 messages each with sizes from {200 B, 2 KiB, 5 KiB} (below/above the 1 KiB pooled serialisation buffer and the 4 KiB bufio buffer) written with Message.WriteTo to one diam.Conn over an in-memory transport whose Write stalls between two pieces; every schedule up to the preemption bound (W=2: bound 2 quick / unbounded thorough; W=3: bound 2 / 3), happens-before state caching. faults: every sequence of write outcomes (bytes accepted k in {0,1,n/2,n-1,n} x {temporary, permanent, nil}) of length <= retries+1 for retries 0..3 against writeRetry (io.Writer) and writeStreamRetry (MultistreamWriter), and through a diam.Conn over a faulting transport.",
+		Rule: "schedules: W in {2,3} writer threads, 1-2 messages each with sizes from {200 B, 2 KiB, 5 KiB} (below/above the 1 KiB pooled serialisation buffer and the 4 KiB bufio buffer) written to one diam.Conn through Message.WriteTo, Conn.Write with caller-serialised bytes and Message.WriteToStreamWithRetry (rotating per writer and message) over an in-memory transport whose Write stalls between two pieces; every schedule up to the preemption bound (W=2: bound 2 quick / unbounded thorough; W=3: bound 2 / 3), happens-before state caching. faults: every sequence of write outcomes (bytes accepted k in {0,1,n/2,n-1,n} x {temporary, permanent, nil}) of length <= retries+1 for retries 0..3 against writeRetry (io.Writer) and writeStreamRetry (MultistreamWriter), and through a diam.Conn over a faulting transport.",
 		Assume: []string{"data-race freedom between visible operations (audited separately with -race)", "the source rewriter and shims preserve Go semantics (shim unit tests)"},
 		QuickBudget: 100, ThoroughBudget: 1500,
 	}
@@ -100,7 +100,21 @@ func c07Sched(name string, pl [][]int, pieces, bound int, split, nocache bool, p
 			vs.GoNamed(fmt.Sprintf("writer%d", w), false, func() {
 				for seq, sz := range pl[w] {
 					m := c07msg(w, seq, sz)
-					n, err := m.WriteTo(c)
+					var n int64
+					var err error
+					switch (w + seq) % 3 {
+					case 0:
+						n, err = m.WriteTo(c)
+					case 1: // the Conn's own Write with a message serialised by the caller
+						b, _ := m.Serialize()
+						var k int
+						k, err = c.Write(b)
+						n = int64(k)
+					default: // the explicit-stream and retry entry points
+						var k int
+						k, err = m.WriteToStreamWithRetry(c, 0, 1)
+						n = int64(k)
+					}
 					if err != nil || int(n) != m.Len() {
 						st.errs = append(st.errs, fmt.Sprintf("writer %d message %d: WriteTo returned (%d, %v), expected (%d, nil)", w, seq, n, err, m.Len()))
 					}
